@@ -306,6 +306,16 @@ def random_spec(rng):
 
 
 # ------------------------------------------------------------------ observation
+def pending_alias(img):
+    """The pending dtype alias, observed through the public getter: get_data_dtype() returns the alias string while
+    one is pending and a numpy dtype otherwise."""
+    try:
+        d = img.get_data_dtype()
+    except Exception:  # noqa
+        return None
+    return d if isinstance(d, str) else None
+
+
 def snapshot(img):
     from nibabel.cifti2 import Cifti2Image
     d = {'data': np.asarray(img.dataobj).tobytes(), 'data_dtype': str(np.asarray(img.dataobj).dtype),
@@ -315,7 +325,7 @@ def snapshot(img):
         return d
     d['hdr'] = img.header.binaryblock
     d['aff'] = None if img.affine is None else np.asarray(img.affine).tobytes()
-    d['alias'] = getattr(img, '_dtype_alias', None)
+    d['alias'] = pending_alias(img)
     return d
 
 
@@ -348,7 +358,7 @@ def model_state(img, cls, before=None):
         al = '-'
     else:
         f = hdr_fields(img.header, cls)
-        al = getattr(img, '_dtype_alias', None) or '-'
+        al = pending_alias(img) or '-'
     snap = snapshot(img)
     d = '7' if before is None or snap['data'] == before['data'] else '8'
     a = '9' if before is None or snap.get('aff') == before.get('aff') else '10'
@@ -358,8 +368,13 @@ def model_state(img, cls, before=None):
 
 
 def dtype_code(hdr_cls_obj, dt):
+    """Datatype code the header stores for a numpy dtype — measured: set it on a copy of the header through the public
+    setter and read the field back (9000 + itemsize for a dtype the header class refuses)."""
     try:
-        return int(hdr_cls_obj._data_type_codes[np.dtype(dt)])
+        h = hdr_cls_obj.copy()
+        h.set_data_dtype(np.dtype(dt))
+        names = h.structarr.dtype.names
+        return int(h['datatype' if 'datatype' in names else 'type'])
     except Exception:  # noqa
         return 9000 + np.dtype(dt).itemsize
 
@@ -394,7 +409,9 @@ def model_case(spec, measured_nmat):
     klass = type(img)
     if cls == 'MGHImage':
         hdr = img.header
-        K = ['M', '1', str(hdr._hdrdtype.itemsize), '0', '0', '0', '0', '0']
+        hb = io.BytesIO()
+        hdr.writehdr_to(hb)              # bytes of the header block proper (without the footer), measured
+        K = ['M', '1', str(len(hb.getvalue())), '0', '0', '0', '0', '0']
         hc = hdr
     elif cls == 'Cifti2Image':
         hc = Nifti2Image.header_class()
